@@ -84,6 +84,18 @@ def decSig : SExp → Option Sig
            tvs := ts.map (fun t => if t = "_" then none else some t) }
   | _ => none
 
+def decOptInt (s : String) : Option (Option Int) :=
+  if s = "_" then some none else s.toInt?.map some
+
+def decIdx : SExp → Option Idx
+  | .list [.atom "k", .atom v] => v.toInt?.map Idx.scalar
+  | .list [.atom "sl", .atom lo, .atom up, .atom st] => do
+    let l ← decOptInt lo
+    let u ← decOptInt up
+    let t ← decOptInt st
+    some (.slice l u t)
+  | _ => none
+
 mutual
 def decExpr : SExp → Option Expr
   | .list [.atom "var", .atom x] => some (.var x)
@@ -110,6 +122,10 @@ def decExpr : SExp → Option Expr
     let a' ← decExpr a
     let b' ← decExpr b
     some (.cmp o a' b')
+  | .list [.atom "subscript", b, .list idx] => do
+    let b' ← decExpr b
+    let is ← idx.mapM decIdx
+    some (.subscript b' is)
   | .list (.atom "other" :: us) => (atoms us).map Expr.other
   | _ => none
 def decExprs : List SExp → Option (List Expr)
@@ -268,6 +284,8 @@ def showErr : Err → String
   | .value => "ValueError"
   | .syntax => "SyntaxError"
   | .type => "TypeError"
+  | .attribute => "AttributeError"
+  | .index => "IndexError"
   | .fuel => "MODEL-FUEL"
 
 end OV.C01
